@@ -14,6 +14,7 @@
 #include <set>
 #include <unordered_set>
 #include <memory>
+#include <mutex>
 #include <boost/graph/adjacency_list.hpp>
 #include <boost/property_map/property_map.hpp>
 #include <parmcb/parmcb.hpp>
@@ -163,7 +164,8 @@ void do_exact(Ctx<W> &x, const std::string &variant) {
 #ifdef PARMCB_VERIF
     // every odd-cycle search of mcb_sva_signed, in call order (hook in parmcb_sva_signed.hpp)
     std::vector<parmcb::verif::SearchEvent> events;
-    parmcb::verif::search_hook() = [&](const parmcb::verif::SearchEvent &ev) { events.push_back(ev); };
+    std::mutex events_mu;
+    parmcb::verif::search_hook() = [&](const parmcb::verif::SearchEvent &ev) { std::lock_guard<std::mutex> lk(events_mu); events.push_back(ev); };
 #endif
     if (variant == "signed") ret = parmcb::mcb_sva_signed(x.g, wm, std::back_inserter(cycles));
     else if (variant == "fvs") ret = parmcb::mcb_sva_fvs_trees(x.g, wm, std::back_inserter(cycles));
@@ -181,6 +183,7 @@ void do_exact(Ctx<W> &x, const std::string &variant) {
             if (ev.use_limit) std::cout << x.scaled((W) ev.limit); else std::cout << "-";
             std::cout << " " << (ev.found ? 1 : 0) << " ";
             if (ev.found) std::cout << x.scaled((W) ev.weight); else std::cout << "-";
+            std::cout << " " << (ev.empty_signed_set ? 1 : 0);
             for (auto h : ev.hidden) std::cout << " " << h;
             std::cout << "\n";
         }
